@@ -458,7 +458,8 @@ func (e *kvElection) attemptPriorityTakeover(payloadBytes []byte) error {
 
 	var currentPayload leadershipPayload
 	if err := json.Unmarshal(entry.Value(), &currentPayload); err != nil {
-		return e.attemptAcquire()
+		// The record is not ours to replace; the caller retries with backoff.
+		return fmt.Errorf("current leadership record is not readable: %w", err)
 	}
 
 	if e.cfg.Priority <= currentPayload.Priority {
